@@ -46,6 +46,14 @@ fn main() {
                     writeln!(out, "{}\t{}\t{}", rq, rs, vr).unwrap();
                 }
             }
+            Some(w @ ("lev" | "hirsch" | "lev-nan" | "hirsch-nan")) => {
+                let resp = sdharness::h_ordered::diff(w, &items[1..]);
+                writeln!(out, "{}\t{}", req, resp).unwrap();
+            }
+            Some("apply-bytes") => {
+                let resp = sdharness::h_ordered::apply_bytes(&items[1..]);
+                writeln!(out, "{}\t{}", req, resp).unwrap();
+            }
             _ => {
                 writeln!(out, "{}\t(bad-req)", req).unwrap();
             }
